@@ -109,6 +109,8 @@ var FloatPool = []float64{0, 0.5, 2.25, -1, 5, 7, 10, 1e10, -0.5}
 var TimePool = []time.Time{
 	time.Date(2020, 1, 1, 0, 0, 0, 0, time.UTC), time.Date(2020, 1, 1, 2, 0, 0, 0, time.FixedZone("p2", 7200)), // same instant as the first
 	time.Date(2021, 6, 15, 12, 30, 0, 0, time.UTC), time.Date(1999, 12, 31, 23, 59, 59, 0, time.UTC), time.Date(2021, 6, 15, 12, 30, 0, 500, time.UTC),
+	// far outside the int64-nanosecond range (1678-2262): "never expires" sentinels and historic dates
+	time.Date(9999, 12, 31, 23, 59, 59, 0, time.UTC), time.Date(1, 1, 1, 0, 0, 0, 0, time.UTC), time.Date(2300, 1, 1, 0, 0, 0, 0, time.UTC), time.Date(1500, 7, 4, 0, 0, 0, 0, time.UTC),
 }
 var ThingIds = []string{"t1", "T1", "t 2", "and", "t5", "t6", "t7", "t8", "t9", "ta", "tb", "tc"}
 var OwnerIds = []string{"o1", "O1", "o 3", "or", "o5", "o6"}
